@@ -227,10 +227,40 @@ def gen_case_fold(rng):
     return (kind, val, rng.random() < 0.85), what, None
 
 
+def gen_case_match(rng):
+    """the inquiry-matching rules against an inquiry whose field holds the attribute with a falsy / None / equal /
+    different value, lacks it, or is not a dictionary at all"""
+    f = pick(rng, ['subject', 'action', 'resource'])
+    attr = pick(rng, ['name', 'role', 'id', '', 'k'])
+    v = pick(rng, [None, None, 0, '', False, [], gen_atom(rng), gen_str(rng)])
+    what = pick(rng, [v, v, v, None, gen_atom(rng), 0, False, ''])
+    inq = gen_inquiry(rng)
+    shape = rng.random()
+    if shape < 0.7:
+        inq[f] = {attr: v, 'other': 1}
+    elif shape < 0.8:
+        inq[f] = {'other': v}
+    elif shape < 0.9:
+        inq[f] = v
+    else:
+        inq[f] = {attr: v}
+    rule = ('match', f[0], ('attr', attr) if rng.random() < 0.85 else None)
+    w = rng.random()
+    if w < 0.2:
+        rule = ('not', rule)
+    elif w < 0.3:
+        rule = ('and', [rule, ('any',)])
+    elif w < 0.4:
+        rule = ('or', [('neither',), rule])
+    return rule, what, inq
+
+
 def gen_case(rng):
     """(rule, what, inquiry-or-None)"""
     if rng.random() < 0.06:
         return gen_case_fold(rng)
+    if rng.random() < 0.05:
+        return gen_case_match(rng)
     r = rng.random()
     if r < 0.15:
         what = gen_ip(rng)
